@@ -201,6 +201,34 @@ def _dp_params(c):
                              _temperature_profile=ObjSpec('TemperatureProfile', profile=c.array('T', (n,)))))
 
 
+def _dp_native(c, p):
+    """the real property, on a model whose pressure object also carries the layer boundaries a real profile has"""
+    import numpy as np
+    from taurex.model.simplemodel import SimpleForwardModel
+    P = np.array(p['self']['_pressure_profile']['profile'], dtype=float)
+    T = np.array(p['self']['_temperature_profile']['profile'], dtype=float)
+
+    class _PP:
+        profile = P
+        nLayers = len(P)
+
+        @property
+        def pressure_profile_levels(self):
+            if len(P) < 2:
+                return np.array([P[0] * 1.5, P[0] / 1.5]) if len(P) else np.array([1.0])
+            lp = np.log10(P)
+            g = np.gradient(lp)
+            return 10 ** np.append(lp - g / 2, lp[-1] + g[-1] / 2)
+
+    class _TP:
+        profile = T
+    o = SimpleForwardModel.__new__(SimpleForwardModel)
+    for nm in ('debug', 'info', 'warning', 'error', 'critical'):
+        setattr(o, nm, lambda *a, **k: None)
+    o._pressure_profile, o._temperature_profile = _PP(), _TP()
+    return np.asarray(SimpleForwardModel.densityProfile.fget(o), dtype=float), p
+
+
 DP = Unit(['C11', 'C01'], SFM + 'densityProfile', _dp_params,
           pre=lambda c, v: {'n': c.And(c.Len(v.self._pressure_profile.profile) >= 0,
                                        c.Len(v.self._temperature_profile.profile) == c.Len(v.self._pressure_profile.profile))},
@@ -209,9 +237,9 @@ DP = Unit(['C11', 'C01'], SFM + 'densityProfile', _dp_params,
                                          r[i], v0.self._pressure_profile.profile[i] / (c.constant('KBOLTZ') * v0.self._temperature_profile.profile[i])))},
           inline=['pressureProfile', 'temperatureProfile', 'pressure'], bounds=[dict(n=2)],
           result=lambda ex, st, v0: st.alloc(ex.c, ex.c.fresh_array('dens', (ex.c.Len(v0.self._pressure_profile.profile),))),
-          gen=lambda rng: dict(n=3, P=[rng.uniform(1, 1e5) for _ in range(3)], T=[rng.uniform(100, 3000) for _ in range(3)]),
-          native=lambda c, p: ((lambda np, K: np.array(p['self']['_pressure_profile']['profile']) / (K * np.array(p['self']['_temperature_profile']['profile'])))(__import__('numpy'), c.constant('KBOLTZ')), p),
-          short='SimpleForwardModel.densityProfile', doc='number density P/(kT), one per layer (native harness re-evaluates the one-line property text)')
+          gen=lambda rng: (lambda n: dict(n=n, P=sorted((10 ** rng.uniform(-2, 6) for _ in range(n)), reverse=True), T=[rng.uniform(100, 3000) for _ in range(n)]))(rng.randint(1, 8)),
+          native=lambda c, p: _dp_native(c, p),
+          short='SimpleForwardModel.densityProfile', doc='number density P/(kT), one per layer')
 
 
 # ------------------------------------------------------------------ SimplePressureProfile.compute_pressure_profile
